@@ -79,6 +79,7 @@ type gen struct {
 	depthCap int
 	avoidA   bool // known finding A reproduces: no non-primitive computed keys in object literals
 	avoidB   bool // known finding B reproduces: no (+-1) ** (NaN | +-Infinity)
+	avoidI   bool // known finding I reproduces: no radix bigint literals (0x0n ...)
 	avoidH   bool // known finding H reproduces: no template literal as the direct right operand of +
 	tmp      int
 	loopVar  int
@@ -91,6 +92,9 @@ var strLits = []string{`""`, `"a"`, `"b"`, `"1e3"`, `" 12 "`, `"0x10"`, `"-0"`, 
 var otherLits = []string{"true", "false", "null", "undefined", "void 0", "0n", "1n", "-1n", "10n", "[]", "{}", "[1,2]", "[0]", "[[]]", "[,1]", "({valueOf(){return 1}})", "[\"a\"]", "({toString(){return \"k\"}})"}
 
 func (g *gen) lit() string {
+	if !g.avoidI && g.r.Chance(3) {
+		return []string{"0x0n", "0x1n", "0b0n", "0o7n"}[g.r.Intn(4)]
+	}
 	switch g.r.Intn(10) {
 	case 0, 1, 2, 3:
 		return numLits[g.r.Intn(len(numLits))]
@@ -598,6 +602,13 @@ func (g *gen) stmt(s *sb, o genOpts, d int, inLoop bool) {
 	case 28:
 		s.line("(%s) && $(%d, %s);", g.exprTop(2), g.nextProbe(), g.lit())
 		s.line("(%s) || $(%d, %s);", g.exprTop(2), g.nextProbe(), g.lit())
+		{
+			v := g.target()
+			armL := gapArms[g.r.Intn(len(gapArms))]
+			l := []string{v + " || " + armL, v + " && " + armL, "(" + g.cond() + ") ? " + armL + " : " + v, "!!" + v, v + " ?? " + armL}[g.r.Intn(5)]
+			op := []string{"??", "??", "||", "&&"}[g.r.Intn(4)]
+			s.line("(%s) %s $(%d, %s);", l, op, g.nextProbe(), g.lit())
+		}
 	default:
 		s.line("$(%d, [%s, %s]);", g.nextProbe(), g.exprTop(2), g.exprTop(2))
 	}
@@ -611,9 +622,9 @@ type program struct {
 
 // The same PRNG stream renders the program under the different option sets, so
 // that variants differ only in the option-dependent statements.
-func genProgram(seed uint64, o genOpts, avoidA, avoidB, avoidH bool) string {
+func genProgram(seed uint64, o genOpts, avoidA, avoidB, avoidH, avoidI bool) string {
 	r := NewRng(seed)
-	g := &gen{r: r, avoidA: avoidA, avoidB: avoidB, avoidH: avoidH}
+	g := &gen{r: r, avoidA: avoidA, avoidB: avoidB, avoidH: avoidH, avoidI: avoidI}
 	s := &sb{}
 	strict := r.Chance(25)
 	s.line("(function() {")
@@ -651,7 +662,7 @@ func genProgram(seed uint64, o genOpts, avoidA, avoidB, avoidH bool) string {
 // ExprCanBeRemovedIfUnused / StmtsCanBeRemovedIfUnused accept
 func genTopLevel(seed uint64, avoidA, avoidB, avoidH bool) string {
 	r := NewRng(seed)
-	g := &gen{r: r, avoidA: avoidA, avoidB: avoidB, avoidH: avoidH, noF0: true}
+	g := &gen{r: r, avoidA: avoidA, avoidB: avoidB, avoidH: avoidH, avoidI: true, noF0: true}
 	s := &sb{}
 	s.line("var ob = $o(900, %s), a = %s, b = %s, c = $o(901, %s);", g.primLit(), g.lit(), g.lit(), g.primLit())
 	s.line("var o = {x: %s, y: {z: %s}, w: %s}, nul = null, und;", g.lit(), g.lit(), g.primLit())
@@ -812,6 +823,121 @@ func genSkeleton(seed uint64) string {
 		for _, a := range args {
 			id++
 			s.line("try { $(%d, sk%d(%s)); } catch (e) { $(%d, [\"thrown\", e]); }", id, f, a, id)
+		}
+	}
+	return "(function() {\n" + s.String() + "})();\n"
+}
+
+// nullish/falsy gap programs: functions whose bodies are statement-position
+// ?? || && ?: and comma expressions (also the same expressions in value and in
+// condition position) whose left operands mix a parameter with literal arms,
+// and whose right operands are probe calls; every function is called on the
+// whole boundary grid, so an operand simplified "as a boolean" where its value
+// matters (or the converse) changes which probes run
+var gapGrid = []string{"null", "undefined", "0", "-0", "NaN", "\"\"", "false", "0n", "[]", "{}", "1", "\"a\"", "true"}
+var gapArms = []string{"null", "void 0", "undefined", "0", "-0", "NaN", "\"\"", "false", "0n", "1", "\"a\"", "true", "[]"}
+
+func genGap(seed uint64) string {
+	r := NewRng(seed)
+	s := &sb{}
+	id := 0
+	probe := func() string {
+		id++
+		return fmt.Sprintf("$(%d, %s)", id, []string{"\"r\"", "1", "0", "null", "\"\"", "void 0", "true", "NaN"}[r.Intn(8)])
+	}
+	arm := func() string { return gapArms[r.Intn(len(gapArms))] }
+	var left func(d int) string
+	left = func(d int) string {
+		x := []string{"p", "p", "p", "q"}[r.Intn(4)]
+		if d > 0 && r.Chance(25) {
+			x = "(" + left(d-1) + ")"
+		}
+		switch r.Intn(14) {
+		case 0, 1:
+			return fmt.Sprintf("%s || %s", x, arm())
+		case 2, 3:
+			return fmt.Sprintf("%s && %s", x, arm())
+		case 4:
+			return fmt.Sprintf("q ? %s : %s", arm(), x)
+		case 5:
+			return fmt.Sprintf("q ? %s : %s", x, arm())
+		case 6:
+			return fmt.Sprintf("%s ? %s : %s", x, arm(), arm())
+		case 7:
+			return "!!" + x
+		case 8:
+			return fmt.Sprintf("%s ?? %s", x, arm())
+		case 9:
+			return fmt.Sprintf("(%s, %s)", probe(), x)
+		case 10:
+			return fmt.Sprintf("%s || q", x)
+		case 11:
+			return fmt.Sprintf("%s && q", x)
+		case 12:
+			return fmt.Sprintf("%s == null ? %s : %s", x, arm(), x)
+		default:
+			return fmt.Sprintf("(%s >>> 0) %s 0", x, []string{"===", "!==", "==", "!="}[r.Intn(4)])
+		}
+	}
+	right := func() string {
+		switch r.Intn(5) {
+		case 0, 1, 2:
+			return probe()
+		case 3:
+			return fmt.Sprintf("(%s, %s)", probe(), arm())
+		default:
+			return fmt.Sprintf("((%s) %s %s)", left(0), []string{"??", "||", "&&"}[r.Intn(3)], probe())
+		}
+	}
+	expr := func() string {
+		switch r.Intn(8) {
+		case 0, 1, 2:
+			return fmt.Sprintf("(%s) ?? (%s)", left(1), right())
+		case 3:
+			return fmt.Sprintf("(%s) || (%s)", left(1), right())
+		case 4:
+			return fmt.Sprintf("(%s) && (%s)", left(1), right())
+		case 5:
+			return fmt.Sprintf("(%s) ? (%s) : (%s)", left(1), right(), right())
+		case 6:
+			return fmt.Sprintf("(%s), (%s)", left(1), right())
+		default:
+			return fmt.Sprintf("(((%s) ?? %s)) %s (%s)", left(1), arm(), []string{"??", "||", "&&"}[r.Intn(3)], right())
+		}
+	}
+	nf := r.Range(4, 7)
+	for f := 0; f < nf; f++ {
+		s.line("function gap%d(p, q) {", f)
+		s.ind += 2
+		n := r.Range(3, 7)
+		for k := 0; k < n; k++ {
+			e := expr()
+			switch r.Intn(10) {
+			case 0, 1, 2, 3, 4, 5:
+				s.line("%s;", e) // unused (statement position)
+			case 6:
+				id++
+				s.line("$(%d, (%s));", id, e) // value position
+			case 7:
+				id++
+				s.line("if (%s) $(%d, \"then\"); else $(%d, \"else\");", e, id, id) // boolean context
+			case 8:
+				s.line("void (%s);", e)
+			default:
+				s.line("!(%s);", e)
+			}
+		}
+		if r.Bool() {
+			s.line("return %s;", expr())
+		}
+		s.ind -= 2
+		s.line("}")
+	}
+	for f := 0; f < nf; f++ {
+		for _, a := range gapGrid {
+			id++
+			q := []string{"0", "1", "null", "\"\"", "{}"}[r.Intn(5)]
+			s.line("try { $(%d, gap%d(%s, %s)); } catch (e) { $(%d, [\"thrown\", e instanceof Error ? \"E\" : e]); }", id, f, a, q, id)
 		}
 	}
 	return "(function() {\n" + s.String() + "})();\n"
@@ -1118,6 +1244,7 @@ var knownInputs = []known{
 	{"A", "known-A-unused-object-computed-key-uses-string-addition", "var k = sym; ({[k]: 1}); $(1, 1);", "var k = sym; ({[k]: 1}); $(1, 1);", api.LoaderJS, true},
 	{"B", "known-B-pow-special-cases-fold-to-1", "enum E { A = 1 ** (0/0) }\n$(1, E.A);", "$(1, 1 ** (0/0));", api.LoaderTS, false},
 	{"H", "known-H-string-addition-reassociation-reorders-toprimitive", "var ob = $o(900, 1);\n$(1, ob + \"\" + `x${$(2, \"t\")}`);", "var ob = $o(900, 1);\n$(1, ob + \"\" + `x${$(2, \"t\")}`);", api.LoaderJS, false},
+	{"I", "known-I-single-use-substitution-into-short-circuit-past-radix-bigint", "(function() {\n  function fn() { $(1, \"called\"); return 7; }\n  function t() { let x = fn(); return 0x0n && x; }\n  $(2, t());\n})();", "(function() {\n  function fn() { $(1, \"called\"); return 7; }\n  function t() { let x = fn(); return 0x0n && x; }\n  $(2, t());\n})();", api.LoaderJS, true},
 	{"G", "known-G-pow-finite-result-not-within-rounding-error", "enum E { A = 1e300 ** 0.1 }\n$(1, E.A);", "$(1, 1e300 ** 0.1);", api.LoaderTS, false},
 }
 
@@ -1154,6 +1281,7 @@ func runGlue(r *Rng, n int, tier string, st *Stats) {
 	st.Extra["avoid_known_A"] = avoid["A"]
 	st.Extra["avoid_known_B"] = avoid["B"]
 	st.Extra["avoid_known_H"] = avoid["H"]
+	st.Extra["avoid_known_I"] = avoid["I"]
 
 	nprog := n / 4
 	if nprog < 20 {
@@ -1163,6 +1291,8 @@ func runGlue(r *Rng, n int, tier string, st *Stats) {
 	for i := 0; i < nprog; i++ {
 		seed := r.U64()
 		switch {
+		case i%10 == 4:
+			jobs = append(jobs, glueJob{kind: "gap", seed: seed, source: genGap(seed), loader: api.LoaderJS})
 		case i%10 == 5:
 			jobs = append(jobs, glueJob{kind: "skeleton", seed: seed, source: genSkeleton(seed), loader: api.LoaderJS})
 		case i%10 == 6:
@@ -1176,7 +1306,7 @@ func runGlue(r *Rng, n int, tier string, st *Stats) {
 			jobs = append(jobs, glueJob{kind: "ts-enum", seed: seed, source: ts, base: js, loader: api.LoaderTS})
 		default:
 			o := genOpts{dropLabels: r.Chance(30), names: r.Chance(20)}
-			jobs = append(jobs, glueJob{kind: "program", seed: seed, opts: o, source: genProgram(seed, genOpts{names: o.names}, avoid["A"], avoid["B"], avoid["H"]), base: genProgram(seed, o, avoid["A"], avoid["B"], avoid["H"]), loader: api.LoaderJS})
+			jobs = append(jobs, glueJob{kind: "program", seed: seed, opts: o, source: genProgram(seed, genOpts{names: o.names}, avoid["A"], avoid["B"], avoid["H"], avoid["I"]), base: genProgram(seed, o, avoid["A"], avoid["B"], avoid["H"], avoid["I"]), loader: api.LoaderJS})
 		}
 	}
 
